@@ -358,6 +358,9 @@ def gen_line_case(rng, idx, inc_name=None, comments=True):
                                '%s(5\n)' % F]), 'call-across-lines'
         if k < 0.85:
             return rng.choice([EMPTY, '%s %s' % (EMPTY, EMPTY), '%s(%s)' % (ID, EMPTY), '%s()' % ID]), 'empty-expansion'
+        if comments and rng.random() < 0.15:
+            # predefined macros take their own path through the main loop (no replacement list)
+            return rng.choice(['__LINE__', '__STDC__', '__STDC_VERSION__', '__STDC_HOSTED__', '%s __LINE__' % bare()]), 'predefined-macro'
         return rng.choice(['p', '22', '+', '"s"', "'c'", ')', ';', ST, '%s(1)' % F, '%s()' % Z, OBJ, '#', 'p #', '%s #' % bare()]), 'ordinary-token'
 
     def tail_ws():
